@@ -6,7 +6,7 @@ from . import run as e2run
 
 class Lemma:
     def __init__(self, name, entry, files, opts=None, splits=None, desc="", bound="", known=(), scale=None, stopfn=None,
-                 stop=None, tags=None, intr=None, expect_reach=()):
+                 stop=None, tags=None, intr=None, expect_reach=(), split_depth=0):
         self.name = name
         self.entry = entry
         self.files = files            # harness file names (under /verif/harness)
@@ -21,6 +21,7 @@ class Lemma:
         self.tags = tags
         self.intr = intr
         self.expect_reach = expect_reach
+        self.split_depth = split_depth   # parallelise by the first k verifChoice calls
 
 
 def active_known(ctx, lemmas_files_cache={}):
@@ -69,15 +70,24 @@ def run_lemmas(ctx, lemmas, procs=16):
         for l in ls:
             base = dict(l.opts)
             base["known_findings"] = sorted(known_active)
+            bases = []
             if l.splits:
                 for sp in l.splits:
                     o = dict(base)
                     o["choices"] = dict(sp)
+                    bases.append(o)
+            else:
+                bases.append(base)
+            for o in bases:
+                if l.split_depth:
+                    for pref in e2run.probe_prefixes(prog, l.entry, o, l.split_depth, ls[0].intr):
+                        o2 = dict(o)
+                        o2["choice_prefix"] = list(pref)
+                        jobs.append((l.entry, o2))
+                        owner.append(l)
+                else:
                     jobs.append((l.entry, o))
                     owner.append(l)
-            else:
-                jobs.append((l.entry, base))
-                owner.append(l)
         results = e2run.run_many(prog, jobs, procs=procs, intr_factory=ls[0].intr)
         per = {}
         for l, r in zip(owner, results):
